@@ -99,9 +99,29 @@ PROPS = {
         "assumptions": ['oracle side conditions the code itself asserts in debug builds: hash points are not the identity; a keystream of >= 32 bytes is not all zero; hash_to_scalar output non-zero (otherwise the HKDF retry loop never ends: unreachable without a SHA-256 preimage)', 'panics inside dependencies are covered by the search harness only'],
     },
     "C18": {
+        "extra": [["golden-check", "/verif/golden/corpus.json"]],
         "rule": 'correspondence: seal/open/prove/verify cases of all four constructions and valid encodings of every type, byte for byte; search: independent reference implementation opens what the library seals and vice versa; golden corpus of the pinned release',
         "trusted_base": [],
         "hand_modelled": ['all own-protocol constructions (coq/Model/Protocols.v) and layouts (coq/Model/Codec.v)'],
         "assumptions": ['the pinning theorems are about the model; the model is tied to the code by the byte-exact correspondence run, the code to the documented constructions by the independent reference implementation in harness/blsdiff/src/search_enc.rs and by the golden corpus of the pinned release'],
+    },
+    "C03": {
+        "rule": "correspondence: KeyGen for seeds of many lengths (HKDF recomputed from HMAC-SHA-256 by the oracle server), public keys, signatures of all schemes, PoPs, aggregates, byte for byte, on the hooked build; search (un-hooked): library output == reference on the pure-Rust backend for keys, signatures, PoPs, aggregates, both verifiers accept each other's signatures, RFC 9380 vectors through blsful's hash_to_point",
+        "trusted_base": [],
+        "hand_modelled": ['KeyGen (scalar_from_hkdf_bytes), Sign/Verify/PopProve/PopVerify/Aggregate/CoreAggregateVerify (coq/Model)'],
+        "assumptions": ['PARTIAL: byte-exactness of points rests on hash-to-curve (SSWU, isogeny, cofactor clearing) and point compression inside the curve crates, which are oracles of the model; that part is decided by the conformance run of the search harness, not by a theorem'],
+    },
+    "C19": {
+        "rule": 'correspondence: the generated cases of C01, C03, C07, C08, C09, C11, C13, C14, C15 run against the harness built with the PURE-RUST backend and compared byte for byte with the extracted model; search: transcript equality of every deterministic operation between the blst and the rust build on the same cases, and cross-consumption of randomized artefacts produced under one backend and consumed under the other, both directions',
+        "trusted_base": [],
+        "hand_modelled": ['the whole model; src/impls.rs inner_types re-export is the only backend-conditional item (static obligation)'],
+        "assumptions": ['PARTIAL: the theorems state backend-agnosticism of the blsful layer given that the two crates implement the same primitives; that they do is decided by the two-build differential run'],
+        "gen": False,
+    },
+    "C20": {
+        "rule": 'correspondence: every randomized entry point under the entropy tap with identical arguments and different / repeated seeds: outputs byte for byte and the number of draws; search (un-hooked): N identical calls per entry point on 1 and 8 threads and in two separate processes, ephemeral components pairwise distinct',
+        "trusted_base": [],
+        "hand_modelled": ['get_crypto_rng and every caller (coq/Model/Protocols.v, Api.v); the entropy source is the explicit sequence ent'],
+        "assumptions": ['PARTIAL: that ChaCha20Rng::from_entropy() returns unpredictable, distinct seeds across calls, threads and processes is OS / getrandom behaviour outside the model; tested by the search harness'],
     },
 }
